@@ -98,6 +98,8 @@ check("C03", "transactions are all-or-nothing", [
 check("C04", "transactions are serializable with respect to each other", [
     ob("VerifC04_TwoTxSerializable", "pkg/engine", "two concurrent transactions (read-only: read both keys; read-write: read, put/delete, read back, commit/rollback) on the real EngineFacade: every explored interleaving's reads and final state equal one of the two serial orders, consistent with real time",
        "2 transactions x 18 shapes each over 2 keys, symbolic values, preemption bound 1", "preemption bound 2", q=P1, t={"preempt": 2, "budget_s": 1200}, no_validate=True),
+    ob("VerifC04_ReadOnlyTxDuringFlush", "pkg/engine", "two keys written into an engine with a 1-byte memtable (each write seals a table for the flusher); a read-only transaction reads both keys twice, or scans, while the flush of those tables runs and nothing is written: it reads one and the same committed state wherever the tables are (sealed in memory, being written out, registered as SSTable)",
+       "2 keys, gets or scan, 2 threads, preemption bound 1", "preemption bound 2", q={"preempt": 1, "budget_s": 300}, t={"preempt": 2, "budget_s": 900}, no_validate=True),
     ob("VerifC04_ReaderEndedByAnotherGoroutine", "pkg/engine", "a transaction that has read a key reads it again while another goroutine ends it (what the stale-transaction sweep, connection cleanup and shutdown do) and a waiting writer overwrites the key and commits: the second read fails or returns what the first returned",
        "read-only or read-write reader, 1 key, symbolic values, 2 threads, preemption bound 1", "preemption bound 2", q=P1, t={"preempt": 2, "budget_s": 600}, no_validate=True),
     ob("VerifC03_FailedCommitNoTrace", "pkg/engine", "isolation from a transaction that never committed: after a commit that failed, a later read-only or read-write transaction sees none of its writes and commits none of them",
